@@ -186,6 +186,11 @@ func (h *Sources) Walk(pos int) {
 		h.hpos = 0
 	}
 
+	// Walking down past the most recent line lands on the line being entered.
+	if h.hpos > 0 && h.hpos+pos < 0 {
+		pos = -h.hpos
+	}
+
 	h.hpos += pos
 
 	switch {
